@@ -4,6 +4,7 @@ import Driver.C15
 import Driver.C09
 import Driver.C19
 import Driver.C02
+import Driver.C18
 
 def main (args : List String) : IO UInt32 := do
   match args with
@@ -13,4 +14,5 @@ def main (args : List String) : IO UInt32 := do
   | ["c09"] => Driver.C09.run; return 0
   | ["c19"] => Driver.C19.run; return 0
   | ["c02"] => Driver.C02.run; return 0
+  | ["c18"] => Driver.C18.run; return 0
   | _ => IO.eprintln "usage: bufmodel <property-protocol>"; return 2
